@@ -129,6 +129,11 @@ func genJoin(engine, prop string, r *simrt.SplitMix) *JoinSc {
 		}
 	}
 
+	if !withTimeout && r.Intn(3) == 0 {
+		// "a zero or negative value means that discipline will wait ... until the channel is closed"
+		sc.Timeout = -int64(pick(r, 1, 100, 1_000_000_000))
+	}
+
 	if withTimeout {
 		if engine == "join1" {
 			base := 10_000_000 * div // the smallest timeout v1 accepts for this inaccuracy
@@ -145,7 +150,7 @@ func genJoin(engine, prop string, r *simrt.SplitMix) *JoinSc {
 	}
 
 	unit := sc.Timeout
-	if unit == 0 {
+	if unit <= 0 {
 		unit = int64(pick(r, 1, 10, 1000))
 	}
 
@@ -219,6 +224,18 @@ func genJoin(engine, prop string, r *simrt.SplitMix) *JoinSc {
 		if sc.CloseDly < 0 || sc.CloseDly > budget {
 			sc.CloseDly = 0
 		}
+	}
+
+	if engine == "unite2" && prop != "C16" && r.Intn(30) == 0 {
+		// a very large JoinSize with a few very large slices (buffer growth, preallocation)
+		sc.JoinSize = pick(r, 70_000, 100_000, 1<<17+1)
+		sc.Bursts = nil
+
+		for k := between(r, 2, 7); k > 0; k-- {
+			sc.Bursts = append(sc.Bursts, JBurst{Delay: int64(pick(r, 0, 0, 1)), Lens: []int{pick(r, sc.JoinSize/3, sc.JoinSize/2+1, sc.JoinSize-1, 30_000, 1, sc.JoinSize, sc.JoinSize+1)}})
+		}
+
+		sc.InCap = pick(r, 0, 1, 3)
 	}
 
 	// consumer
@@ -299,7 +316,7 @@ func genJoin(engine, prop string, r *simrt.SplitMix) *JoinSc {
 }
 
 func joinHorizon(sc *JoinSc) int64 {
-	t := 4*sc.Timeout + sc.StallFor + sc.CloseDly
+	t := 4*max(sc.Timeout, 0) + sc.StallFor + sc.CloseDly
 
 	slices := 1
 
